@@ -418,6 +418,12 @@ func CondAtom(v ssa.Value) (string, bool) { return condAtom(v) }
 // atoms. ok=false when more than limit paths exist (caller falls back to
 // dominance).
 func PathFacts(f *ssa.Function, target *ssa.BasicBlock, limit int) (paths []map[string]bool, ok bool) {
+	return PathFactsAvoid(f, target, nil, limit)
+}
+
+// PathFactsAvoid is PathFacts restricted to paths that do not pass through any
+// block of avoid ("every path that skips X must satisfy ...").
+func PathFactsAvoid(f *ssa.Function, target *ssa.BasicBlock, avoid map[*ssa.BasicBlock]bool, limit int) (paths []map[string]bool, ok bool) {
 	// Only explore blocks from which the target is reachable.
 	canReach := map[*ssa.BasicBlock]bool{}
 	for _, b := range f.Blocks {
@@ -444,7 +450,7 @@ func PathFacts(f *ssa.Function, target *ssa.BasicBlock, limit int) (paths []map[
 			}
 			return
 		}
-		if onPath[b] {
+		if onPath[b] || avoid[b] {
 			return
 		}
 		onPath[b] = true
